@@ -150,6 +150,24 @@ pub fn idiom_loop_clean(n: usize, print: bool, heart: char) -> Vec<RCmd> {
     v
 }
 
+/// `idiom_loop_clean` whose every round prints the given code points (mixed UTF-8 widths put characters across any byte
+/// offset a bounded output buffer may cut at)
+pub fn idiom_loop_clean_chars(n: usize, chars: &[u32], heart: char) -> Vec<RCmd> {
+    let mut v = idiom_loop_clean(n, false, heart);
+    let mut ins = Vec::new();
+    for &cp in chars {
+        let cp = cp as usize;
+        let h = (1..=64usize).rev().find(|h| cp % h == 0).unwrap_or(1);
+        ins.push(c(0, h, cp / h));
+        ins.push(c(1, 1, 1));
+    }
+    // after the loop head (value push + label), before the countdown
+    let tail = v.split_off(2);
+    v.extend(ins);
+    v.extend(tail);
+    v
+}
+
 /// select stack 0 and copy `k` characters to stdout (`via` = how)
 pub fn idiom_read(k: usize, via: u8) -> Vec<RCmd> {
     let mut v = vec![c(5, 1, 0)];
